@@ -3,6 +3,7 @@ package sym
 import (
 	"fmt"
 	"go/types"
+	"os"
 	"sort"
 	"strings"
 
@@ -72,6 +73,10 @@ func (in *Interp) encodeBlob(kind string, t types.Type, v Value) SymBytes {
 	b := in.tb.Var(name, SortStr)
 	in.nondets = append(in.nondets, nondetRec{name, b, "blob"})
 	in.codecs[name] = &codecEntry{kind, t, deepCopy(v)}
+	if os.Getenv("SYMGO_DEBUGJSON") != "" {
+		k, _ := in.valueKey(v, 0)
+		fmt.Fprintf(os.Stderr, "encodeBlob %s type=%v key=%s at %s\n", name, t, k, in.where())
+	}
 	// a JSON text is never empty
 	in.assertPC(in.tb.Not(in.tb.Eq(b, in.tb.Str(""))))
 	return SymBytes{b}
@@ -134,6 +139,8 @@ func (in *Interp) jsonUnmarshal(data Value, dst Value) Value {
 					if out, ok := in.decodeStructByJSONName(srcT, sv, dstT); ok {
 						*p = out
 						return Iface{}
+					} else if os.Getenv("SYMGO_DEBUGJSON") != "" {
+						fmt.Fprintf(os.Stderr, "decodeStructByJSONName FAILED %s -> %s\n", e.T, pt.Elem())
 					}
 				}
 			}
@@ -427,6 +434,16 @@ func init() {
 				case "Reset":
 					data = in.tb.Str("")
 					return nil
+				case "Size":
+					if n, ok := hashSize(alg); ok {
+						return in.tb.BV(64, uint64(n))
+					}
+					sz := in.noteUF(in.tb.UF("crypto.hash.size", BVSort(64), alg))
+					// a digest size is a small non-negative number
+					in.assertPC(in.tb.And(in.tb.CmpBV("bvsle", in.tb.BV(64, 0), sz), in.tb.CmpBV("bvsle", sz, in.tb.BV(64, 64))))
+					return sz
+				case "BlockSize":
+					return in.noteUF(in.tb.UF("crypto.hash.blocksize", BVSort(64), alg))
 				}
 				panic(in.abort("hash.Hash.%s is not modelled", method))
 			}
@@ -832,10 +849,98 @@ func (in *Interp) decodeStructByJSONName(srcT *types.Struct, src Struct, dstT *t
 				continue
 			}
 			if !types.Identical(srcT.Field(j).Type(), dstT.Field(i).Type()) {
-				return nil, false
+				// members of different Go types: go through the JSON form of the member, honouring custom
+				// (Un)MarshalJSON methods on either side (e.g. base64-encoded byte buffers vs. strings)
+				v, present, ok := in.convertMemberViaJSON(srcT.Field(j).Type(), src[j], dstT.Field(i).Type(), strings.Contains(srcT.Tag(j), "omitempty"))
+				if !ok {
+					return nil, false
+				}
+				if present {
+					out[i] = v
+				}
+				if os.Getenv("SYMGO_DEBUGJSON") != "" {
+					fmt.Fprintf(os.Stderr, "  member %s present=%v v=%v\n", dn, present, v)
+				}
+				continue
 			}
 			out[i] = deepCopy(src[j])
+			if os.Getenv("SYMGO_DEBUGJSON") != "" {
+				fmt.Fprintf(os.Stderr, "  member %s copied %v\n", dn, src[j])
+			}
 		}
 	}
 	return out, true
+}
+
+// jsonMethod finds MarshalJSON / UnmarshalJSON in the method set of t (value or pointer receiver).
+func (in *Interp) jsonMethod(t types.Type, name string) *ssa.Function {
+	sel := in.E.Prog.MethodSets.MethodSet(t).Lookup(nil, name)
+	if sel == nil {
+		return nil
+	}
+	return in.E.Prog.MethodValue(sel)
+}
+
+// convertMemberViaJSON converts one struct member from its source type to a different destination type the
+// way encoding/json would: marshal the source member (custom MarshalJSON if it has one), unmarshal into the
+// destination member (custom UnmarshalJSON if it has one). present=false means the member is omitted.
+func (in *Interp) convertMemberViaJSON(srcT types.Type, srcV Value, dstT types.Type, omitEmpty bool) (v Value, present, ok bool) {
+	srcV = in.force(srcV)
+	if os.Getenv("SYMGO_DEBUGJSON") != "" {
+		fmt.Fprintf(os.Stderr, "convertMember %s -> %s (%T) marshal=%v unmarshal=%v/%v\n", srcT, dstT, srcV, in.jsonMethod(srcT, "MarshalJSON") != nil, in.jsonMethod(dstT, "UnmarshalJSON") != nil, in.jsonMethod(types.NewPointer(dstT), "UnmarshalJSON") != nil)
+	}
+	// omitted / null members
+	if p, isPtr := srcV.(*Value); isPtr && p == nil {
+		return nil, false, true
+	}
+	if t, isTerm := srcV.(*Term); isTerm && omitEmpty && t.IsConst() && t.Sort.K == KStr && t.S == "" {
+		return nil, false, true
+	}
+	if t, isTerm := srcV.(*Term); isTerm && omitEmpty && !t.IsConst() && t.Sort.K == KStr {
+		if in.Branch(in.tb.Eq(t, in.tb.Str(""))) {
+			return nil, false, true
+		}
+	}
+	var blob Value
+	if m := in.jsonMethod(srcT, "MarshalJSON"); m != nil && m.Signature.Params().Len() == 0 {
+		saved := in.curFrame
+		r := in.callFn(m, []Value{srcV}, nil).(Tuple)
+		in.curFrame = saved
+		if e, isI := r[1].(Iface); isI && e.T != nil {
+			return nil, false, false
+		}
+		blob = r[0]
+	} else {
+		r := in.jsonMarshal(Iface{T: srcT, V: srcV}, "json").(Tuple)
+		blob = r[0]
+	}
+	// destination
+	if pt, isPtr := under(dstT).(*types.Pointer); isPtr {
+		if m := in.jsonMethod(dstT, "UnmarshalJSON"); m != nil {
+			q := new(Value)
+			*q = in.zero(pt.Elem())
+			saved := in.curFrame
+			r := in.callFn(m, []Value{q, blob}, nil)
+			in.curFrame = saved
+			if e, isI := r.(Iface); isI && e.T != nil {
+				return nil, false, false
+			}
+			return q, true, true
+		}
+	}
+	q := new(Value)
+	*q = in.zero(dstT)
+	if m := in.jsonMethod(types.NewPointer(dstT), "UnmarshalJSON"); m != nil {
+		saved := in.curFrame
+		r := in.callFn(m, []Value{q, blob}, nil)
+		in.curFrame = saved
+		if e, isI := r.(Iface); isI && e.T != nil {
+			return nil, false, false
+		}
+		return *q, true, true
+	}
+	if e, isI := in.jsonUnmarshal(blob, Iface{T: types.NewPointer(dstT), V: q}).(Iface); isI && e.T != nil {
+		return nil, false, false
+	}
+	return *q, true, true
 }
